@@ -1,5 +1,5 @@
 CHECK = {
-    "suites": [suite("schedules", "c05", 150, 1500, stdin=True, timeout={"quick": 600, "thorough": 1800})],
+    "suites": [suite("schedules", "c05", 800, 8000, stdin=True, timeout={"quick": 600, "thorough": 1800})],
     "lean_sources": ["ClusterVerif/Model/C05.lean", "ClusterVerif/Spec/C05.lean"],
     "rule": "gated schedules",
     "trusted_base": [],
